@@ -4,7 +4,7 @@
 (*                                                                         *)
 (* A program is                                                            *)
 (*     fn h<T>(p: T) -> T { return: p }          one helper per type       *)
-(*     fn main() [-> R]                                                    *)
+(*     fn run() [-> R]                    (main calls run, prints its result)*)
 (*     {                                                                   *)
 (*         var t<T>: T = <7>T;  ...              typed variables (prelude) *)
 (*         var arr: [3]i32 = [10i32, 20i32, 30i32];                        *)
@@ -104,14 +104,17 @@ AsgU(decl) == IF "asgu" \notin Forms THEN {}
               ELSE UNION {{[k |-> "S", x |-> decl[j], e |-> e] : e \in {x \in AllExprs1(decl) : ~(x.k = "var" /\ x.x = decl[j])}} : j \in 1..Len(decl)}
 AsgT(decl) == IF "asgt" \notin Forms THEN {}
               ELSE {[k |-> "S", x |-> "t" \o t, e |-> e] : t \in Types, e \in NodeExprs(decl)}
-CmpOperands(decl) == Atoms(decl) \cup (IF "cmpbin" \in Forms THEN NodeBins(decl) ELSE {})
+\* comparisons: atom == atom, and with "cmpbin" also (x op y) == atom and atom == (x op y)
+CondPairs(decl) == (Atoms(decl) \X Atoms(decl))
+                   \cup (IF "cmpbin" \in Forms THEN (NodeBins(decl) \X Atoms(decl)) \cup (Atoms(decl) \X NodeBins(decl)) ELSE {})
 Conds(decl) == IF "cmp" \notin Forms THEN {}
-               ELSE {[k |-> "IG", n |-> "end", c |-> [op |-> "==", l |-> l, r |-> r]] :
-                       l \in CmpOperands(decl), r \in {y \in CmpOperands(decl) : TRUE}}
+               ELSE {[k |-> "IG", n |-> "end", c |-> [op |-> "==", l |-> p[1], r |-> p[2]]] : p \in CondPairs(decl)}
 NodeConds(decl) == {s \in Conds(decl) : s.c.l \in NodeExprs(decl) \/ s.c.r \in NodeExprs(decl)}
 
-Stmts(decl, i) == IF i = 1 THEN DeclU(decl)
-                  ELSE DeclU(decl) \cup DeclT(decl, i) \cup AsgU(decl) \cup AsgT(decl) \cup NodeConds(decl)
+\* (no unannotated declaration after a conditional jump: the jump to `end` would skip it, and the return value
+\*  after the label may use it -- E482 is not the subject here)
+Stmts(decl, i, jumped) == IF i = 1 THEN DeclU(decl)
+                          ELSE (IF jumped THEN {} ELSE DeclU(decl)) \cup DeclT(decl, i) \cup AsgU(decl) \cup AsgT(decl) \cup NodeConds(decl)
 
 (* ------------------------------- program ------------------------------- *)
 Helper(t) == [name |-> "h" \o t, params |-> <<[x |-> "p", ty |-> Prim(t)]>>, ret |-> Prim(t), body |-> <<>>, res |-> Var("p")]
@@ -120,11 +123,17 @@ ArrTy == [k |-> "array", n |-> 3, e |-> Prim("i32")]
 Prelude == [i \in 1..Len(TypeSeq) |-> [k |-> "V", x |-> "t" \o TypeSeq[i], ty |-> Prim(TypeSeq[i]), e |-> Sfx(7, TypeSeq[i])]]
            \o <<[k |-> "V", x |-> "arr", ty |-> ArrTy, e |-> [k |-> "arr", es |-> <<Sfx(10, "i32"), Sfx(20, "i32"), Sfx(30, "i32")>>]]>>
 Post(decl) == [i \in 1..Len(decl) |-> [k |-> "P", e |-> Var(decl[i])]] \o <<[k |-> "L", n |-> "end"]>>
-Main(b, decl, ret, res) ==
-    LET base == [name |-> "main", params |-> <<>>, body |-> Prelude \o b \o Post(decl),
-                 ret |-> IF ret = "void" THEN VoidT ELSE Prim(ret)]
-    IN base @@ [res |-> res]
-Prog(b, decl, ret, res) == [structs |-> <<>>, consts |-> <<>>, fns |-> Helpers \o <<Main(b, decl, ret, res)>>]
+\* the function under test is `run`; `main` (fully annotated) calls it, prints its result and returns 0
+RunFn(b, decl, ret, res) ==
+    [name |-> "run", params |-> <<>>, body |-> Prelude \o b \o Post(decl),
+     ret |-> IF ret = "void" THEN VoidT ELSE Prim(ret), res |-> res]
+NoArgs == <<>>
+CallRun == [k |-> "call", f |-> "run", args |-> NoArgs]
+MainFn(ret) ==
+    [name |-> "main", params |-> NoArgs, ret |-> Prim("u8"), res |-> Sfx(0, "u8"),
+     body |-> IF ret = "void" THEN << [k |-> "CALL", f |-> "run", args |-> NoArgs, d |-> ""] >>
+              ELSE << [k |-> "V", x |-> "r", ty |-> Prim(ret), e |-> CallRun], [k |-> "P", e |-> Var("r")] >>]
+Prog(b, decl, ret, res) == [structs |-> <<>>, consts |-> <<>>, fns |-> Helpers \o <<RunFn(b, decl, ret, res), MainFn(ret)>>]
 
 VARIABLES body, decl, done, out
 vars == <<body, decl, done, out>>
@@ -142,16 +151,18 @@ Finish(ret, res) ==
     /\ ~done /\ Len(body) >= 1
     /\ done' = TRUE
     /\ LET P  == Prog(body, decl, ret, res)
-           f  == P.fns[Len(P.fns)]
+           f  == P.fns[Len(P.fns) - 1]
            r  == FnResult(P, f, TRUE)
            m  == AlgRun(P, f)
-       IN out' = [v |-> r.v, sol |-> r.sol, ret |-> ret, res |-> res, m |-> m, n |-> Len(f.body)]
+       IN out' = [v |-> r.v, sol |-> r.sol, ret |-> ret, res |-> res, m |-> m, n |-> Len(f.body),
+                  fix |-> IF r.v = "accept" /\ ~m.ok THEN RepairNeeded(P, f) ELSE ""]
     /\ UNCHANGED <<body, decl>>
 
 \* (the guards stand before the quantifiers: TLC would otherwise build the alphabet for finished states too)
-Next == \/ (~done /\ Len(body) < MaxStmts /\ \E s \in Stmts(decl, Len(body) + 1) : Add(s))
+Next == \/ (~done /\ Len(body) < MaxStmts /\ \E s \in Stmts(decl, Len(body) + 1, \E j \in 1..Len(body) : body[j].k = "IG") : Add(s))
+        \* a return value counts as a statement
         \/ (~done /\ Len(body) >= 1 /\ \E ret \in Rets : IF ret = "void" THEN Finish("void", Naked(0))
-                                                          ELSE \E res \in ResAtoms(decl) : Finish(ret, res))
+                                                          ELSE Len(body) < MaxStmts /\ \E res \in ResAtoms(decl) : Finish(ret, res))
 Spec == Init /\ [][Next]_vars
 
 (* ------------------------------ invariants ----------------------------- *)
@@ -167,6 +178,6 @@ AComplete == (done /\ out.v = "accept") => out.m.ok
 
 EmitCase == done =>
     PrintT(<<"CASE", ToJson([b |-> body, ret |-> out.ret, res |-> out.res, v |-> out.v, n |-> out.n,
-                             sol |-> SetToSeq(out.sol),
-                             mok |-> out.m.ok, mtypes |-> SetToSeq(out.m.types), mwhy |-> out.m.why])>>)
+                             sol |-> SetToSeq({<<r.n, r.c, r.d, r.lit, r.hint>> : r \in out.sol}),
+                             fix |-> out.fix, mok |-> out.m.ok, mt |-> SetToSeq({<<t.n, t.t>> : t \in out.m.types}), mwhy |-> out.m.why])>>)
 =============================================================================
